@@ -375,6 +375,11 @@ func FanUniverse(fs FanSpec) AlphaSpec {
 	if fs.Path != "" {
 		sp.Probes = append(sp.Probes, fs.Path, fs.Path[:len(fs.Path)-1])
 	}
+	if len(fs.Path) > 11 {
+		// keys that agree with the ten inline path bytes and diverge in the part of the path that is
+		// not stored in the node (only recoverable through a leaf)
+		sp.Free = append(sp.Free, fs.Path[:10]+"#"+fs.Path[11:]+"d", fs.Path[:len(fs.Path)-1]+"#")
+	}
 	if fs.Stem && fs.Path != "" {
 		// the stem key is free: present in some states, absent in others
 		sp.Free = append(sp.Free, fs.Path)
